@@ -170,6 +170,7 @@ func (match4Engine) Run(ctx *fw.Ctx, cs any) {
 	for _, d := range datas {
 		job.Reqs = append(job.Reqs, ChainReq{Hex: hex.EncodeToString(d), RxIfName: []string{"ve0", "vf0"}[rng.Intn(2)], Peer: "10.77.0.99", Port: 68})
 	}
+	job.LogLevel = caseLogLevel(c.Seed)
 	out := RunChain(job, ctx.Scratch, 5*time.Minute)
 	conf := fmt.Sprintf("chain #%d %v bound=%q", c.Chain, match4Chains[c.Chain], job.Iface)
 	if out.SetupErr != "" {
